@@ -195,7 +195,9 @@ def run_flow(sc, root, helper):
     d = os.path.join(root, "f%d" % sc["idx"])
     os.makedirs(d, exist_ok=True)
     ca = mockca.MockCA(helper, rules=[dict(r) for r in sc["rules"]],
-                       opts={"nonce_on_get": sc["nonce_on_get"], "eab_keys": {"kid-1": EAB_KEY}, "valid_secs": 90 * 86400})
+                       opts={"nonce_on_get": sc["nonce_on_get"], "eab_keys": {"kid-1": EAB_KEY}, "valid_secs": 90 * 86400,
+                             # every third CA spells its host name in a way a URL library would rewrite
+                             "url_host": "Localhost" if sc["idx"] % 3 == 2 else None})
     ca.start()
     ok_all = True
     try:
